@@ -376,7 +376,7 @@ func run(t *testing.T, sc Scenario, record bool) *detsim.Outcome {
 		out.SimNanos = int64(time.Since(t0))
 		for _, srv := range servers {
 			logs = append(logs, srv.Snapshot())
-			for k, v := range srv.Faults {
+			for k, v := range srv.FaultCounts() {
 				out.Faults[k] += v
 			}
 		}
